@@ -3,6 +3,9 @@ mod enumchecks;
 mod proto;
 mod protochecks;
 mod seq_aggregator;
+mod seq_store;
+mod seq_sender;
+mod seq_mempool;
 mod util;
 mod world;
 #[path = "/repo/node/src/config.rs"]
@@ -26,6 +29,14 @@ fn main() {
         },
     };
     driver::panics::install();
+    if args.iter().any(|a| a == "--part") {
+        let part = match prop {
+            "C11" => seq_mempool::c11_part(tier),
+            _ => serde_json::json!({}),
+        };
+        println!("PART-JSON {}", part);
+        std::process::exit(0);
+    }
     if args.get(2).map(|s| s.as_str()) == Some("--replay") {
         let path = args.get(3).cloned().unwrap_or_default();
         let code = match prop {
@@ -45,6 +56,11 @@ fn main() {
         "C09" => protochecks::c09(tier),
         "C10" => protochecks::c10(tier),
         "C19" => protochecks::c19(tier),
+        "C11dbg" => { seq_mempool::debug_c11(); 0 }
+        "C11" => seq_mempool::c11(tier),
+        "C12" => seq_mempool::c12(tier),
+        "C14" => seq_sender::c14(tier),
+        "C16" => seq_store::c16(tier),
         "C17" => enumchecks::c17(tier),
         "C18" => enumchecks::c18(tier),
         "C20" => enumchecks::c20(tier),
